@@ -1,4 +1,72 @@
-(* Props/C02.v — placeholder while the proofs are written; replaced below. *)
-From Verif Require Import Lib.Base Lib.PyStr Model.Session Model.SessionCheck.
-Example C02_model_loads : init.(next_id) = O.
-Proof. reflexivity. Qed.
+(* Props/C02.v — property C02: authorization codes are single use, client-bound, redirect-bound and
+   expiring, for every interleaving of the parse and process steps of concurrent token requests; at the
+   OIDC token endpoint a second presentation of a code invalidates what was minted from the first.
+   Statements only; proofs are in Proofs/C02_proofs.v and Proofs/Session_proofs.v.
+   The model (Model/Session.v) is tied to the real provider by harness/drv_C02.py on every run. *)
+From Coq Require Import String ZArith List.
+From Verif Require Import Lib.Base Lib.PyStr Model.Session Model.SessionCheck Proofs.Session_proofs Proofs.C02_proofs.
+Import ListNotations.
+Open Scope string_scope.
+
+(* For every configuration, every history `pre` before the authorization response that hands out code c,
+   and EVERY sequence `post` of operations afterwards (parse and process are separate operations, so this
+   covers every interleaving of any number of concurrent redemptions by any clients, with clock ticks,
+   refreshes and revocations in between): c is exchanged for tokens at most once. *)
+Theorem C02_single_use : forall cf pre u cl sc s1 c scope post,
+  step cf (fst (run cf init pre)) (Authorize u cl sc) = (s1, OAuthz c scope) ->
+  (redeems c cf s1 post <= 1)%nat.
+Proof. exact single_use. Qed.
+Print Assumptions C02_single_use.
+
+(* An exchange that yields tokens was requested by the client the code was issued to, with the redirect_uri
+   of the authorization request, for a code that is unrevoked, unexpired and unused, under a live grant. *)
+Theorem C02_bound : forall cf c s o s1 x,
+  step cf s o = (s1, x) -> is_redeem c s o x = true ->
+  exists idx kw cl rd g t,
+    o = Process idx kw /\ nth_error (parsed s) idx = Some (PCode cl c (Some rd)) /\
+    find_tok c s = Some (g, t) /\
+    cl = g_client g /\ rd = g_redirect g /\
+    t_revoked t = false /\ (t_exp t = 0 \/ now s <= t_exp t)%Z /\ max_reached t = false /\
+    g_revoked g = false.
+Proof. exact redeem_bound. Qed.
+Print Assumptions C02_bound.
+
+(* OIDC token endpoint: presenting a used code is refused and revokes every token minted from it. *)
+Theorem C02_oidc_replay_revokes : forall cf s cl id redir s1 x g t,
+  c_oidc cf = true ->
+  find_tok id s = Some (g, t) -> t_cls t = Code -> t_used t <> 0%Z ->
+  step cf s (TokenParse cl (TRef id) redir) = (s1, x) ->
+  x = OErr EInvalidGrant /\
+  forall k tk, tget k s = Some tk -> t_grant tk = t_grant t -> t_based tk = Some id ->
+               exists tk', tget k s1 = Some tk' /\ t_revoked tk' = true.
+Proof. exact oidc_replay_revokes. Qed.
+Print Assumptions C02_oidc_replay_revokes.
+
+(* Tokens are never "un-used" or "un-revoked" by any operation (used by C03 as well). *)
+Theorem C02_monotone : forall cf s o, ext s (fst (step cf s o)).
+Proof. exact step_ext. Qed.
+Print Assumptions C02_monotone.
+
+(* non-vacuity: on the configuration of the correspondence run the first exchange succeeds; the replay,
+   the cross-client attempt, the altered redirect_uri and the exchange after expiry do not. *)
+Definition c1 := PS "client_1".
+Definition c2 := PS "client_2".
+Definition demo_post : list op :=
+  [ TokenParse c2 (TRef 0) (Some (redirect_of c1));                (* another client *)
+    Process 0 None;
+    TokenParse c1 (TRef 0) (Some (PS "https://evil.example.com/cb")); Process 1 None;
+    TokenParse c1 (TRef 0) (Some (redirect_of c1)); TokenParse c1 (TRef 0) (Some (redirect_of c1));
+    Process 2 None; Process 3 None; Process 2 None;                 (* two concurrent redemptions *)
+    TokenParse c1 (TRef 0) (Some (redirect_of c1)); Process 4 None ]. (* replay *)
+Example C02_nonvacuous :
+  let cf := mk_cfg true false in
+  let '(s1, x) := step cf init (Authorize (PS "diana") c1 [PS "openid"; PS "offline_access"]) in
+  x = OAuthz 0 [PS "openid"; PS "offline_access"] /\ redeems 0 cf s1 demo_post = 1%nat.
+Proof. vm_compute. split; reflexivity. Qed.
+Example C02_expired_not_redeemable :
+  let cf := mk_cfg false false in
+  let '(s1, x) := step cf init (Authorize (PS "diana") c1 [PS "openid"]) in
+  redeems 0 cf s1 [Tick 301; TokenParse c1 (TRef 0) (Some (redirect_of c1)); Process 0 None] = 0%nat
+  /\ redeems 0 cf s1 [TokenParse c1 (TRef 0) (Some (redirect_of c1)); Tick 301; Process 0 None] = 0%nat
+  /\ redeems 0 cf s1 [Tick 300; TokenParse c1 (TRef 0) (Some (redirect_of c1)); Process 0 None] = 1%nat.
+Proof. vm_compute. repeat split; reflexivity. Qed.
